@@ -53,6 +53,8 @@ mod alu;
 pub mod bytecode;
 mod cached;
 mod compute;
+#[cfg(kani)]
+pub use compute::verif_compute_effects;
 mod crypto;
 pub mod error;
 mod memory;
